@@ -7,7 +7,7 @@ public query runs its database code inside Cancelled::catch (via with_db) and no
 crate intercepts unwinding (MIR scan).
 Interleavings are NOT explored."""
 import os, re, json
-from mirsym import explore
+from mirsym import explore, native
 from mirsym.world import World
 from mirsym.values import *
 from mirsym import models
@@ -126,17 +126,64 @@ def main(tier, seed):
             nviol += 1
             chk.violation('obligation:catch-outside-with_db', 'obligation', 'C12: O4: %s intercepts unwinding (%s): a query cancelled by a pending change would return a partial Ok answer instead of Err(Cancelled)' % (n, t),
                           {'function': n, 'calls': [t]}, confirmed=True)
+        # native layer: real threads on snapshots while a change lands (executed, real timing)
+        import threading
+        from concurrent.futures import ThreadPoolExecutor
+        from . import isok
+        binary = native.build('oracle-ide')
+        ps, nq = isok.pairs()
+        tl = threading.local(); oracles = []
+
+        def run(p):
+            if not hasattr(tl, 'o'):
+                tl.o = native.Oracle(binary); oracles.append(tl.o)
+            return isok.run_pair(tl.o, p[0], p[1], threads=3 if tier == 'quick' else 6)
+        nbad = ans = canc = 0; mx = 0
+        rounds = 1 if tier == 'quick' else 4
+        try:
+            for rnd in range(rounds):
+                with ThreadPoolExecutor(max_workers=4) as ex:
+                    for p, (probs, a_, c_, m_) in zip(ps, ex.map(run, ps)):
+                        ans += a_; canc += c_; mx = max(mx, m_)
+                        if probs:
+                            nbad += 1
+                            if nbad <= 3:
+                                chk.violation('isolation:threads', 'enumerated', probs[0][:800], {'kind': 'isolation', 'before': p[0], 'after': p[1]}, confirmed=True)
+                        else:
+                            chk.validated += 1
+        finally:
+            for o in oracles:
+                o.close()
+        chk.log('isolation: %d (before, after) pairs x %d delays x %d threads: %d answers equal to the pre-change answer, %d cancellations, %d pairs with another answer; slowest apply_change %d ms'
+                % (len(ps) * rounds, len(isok.DELAYS), 3 if tier == 'quick' else 6, ans, canc, nbad, mx))
+        if canc == 0 or ans == 0:
+            chk.inconclusive.append('isolation layer: %d pre-change answers and %d cancellations observed - the change never landed while queries were running (vacuous)' % (ans, canc))
+        chk.extra['isolation'] = {'pairs': len(ps) * rounds, 'delays_us': isok.DELAYS, 'pre_change_answers': ans, 'cancellations': canc, 'pairs_with_other_answers': nbad, 'max_apply_ms': mx}
     finally:
         W.cleanup()
-    chk.assumptions += ['obligation check: necessary conditions of the property, not the schedule-quantified statement; salsa\'s runtime and thread interleavings are not modelled',
+    chk.assumptions += ['native layer (executed with real threads and real timing, not a solver verdict): for the 64 one-coordinate changes of the C11 workspace template and 8 delays between 0 and 15 ms, three (thorough: six, four rounds) snapshot threads ask every public query while the change is applied: '
+                        'every observed answer is the pre-change answer or a cancellation, apply_change returns within %d ms, a snapshot taken afterwards answers like a fresh analysis' % isok.APPLY_BOUND_MS,
+                        'obligation check: necessary conditions of the property, not the schedule-quantified statement; salsa\'s runtime and thread interleavings are not modelled',
                         'under-constrained execution: callees outside crates/ide/src/ide/mod.rs return unconstrained values; Cancelled::catch runs its closure',
                         'a violated obligation is a deterministic fact about the code path (reported without a native race reproduction)']
     chk.trusted += ['rustc MIR', 'mirsym interpreter (under-constrained mode)']
     expl = ('Under-constrained symbolic execution of the real MIR of AnalysisHost::{apply_change, request_cancellation, snapshot} and of all %d public Analysis queries; obligations O1-O3 asserted on every path. '
             'Necessary conditions only; interleavings are not explored.' % len(public_queries()))
-    return chk.finish({'obligations': len(fns), 'discharged': len(fns) - nviol}, explanation=expl)
+    return chk.finish({'obligations': len(fns), 'discharged': len(fns) - nviol, 'native_oracle': chk.extra.get('isolation', {})}, explanation=expl)
 
 
 def replay(path):
+    import json
+    d = json.load(open(path))
+    if d.get('cex', {}).get('kind') == 'isolation':
+        from . import isok
+        o = native.Oracle(native.build('oracle-ide'))
+        allp = []
+        for _ in range(5):
+            probs, a_, c_, m_ = isok.run_pair(o, d['cex']['before'], d['cex']['after'])
+            allp += probs
+        o.close()
+        print(json.dumps({'runs': 5, 'problems': allp[:5]}, indent=1))
+        return 1 if allp else 0
     print(open(path).read())
     return 0
